@@ -183,8 +183,10 @@ class Setup:
         kind = rng.choice(["as-is", "bit-flip", "byte-flip", "truncate", "splice", "reorder", "before-greeting",
                            "undecodable-payload", "unknown-type", "bad-magic", "over-limit-length", "random-bytes",
                            "huge-list-length", "multi-flip", "garbage-after-frame", "valid-content-before-greeting",
-                           "request-then-close", "request-then-reset"])
+                           "request-then-close", "request-then-reset", "peer-book-story"])
         greeted = kind not in ("before-greeting", "valid-content-before-greeting")
+        if kind == "peer-book-story":
+            return "peers", kind, b"", True         # (built in run(), once the connection's address is known)
         if kind == "valid-content-before-greeting":
             # out of protocol order: perfectly valid NEW content, but sent before the greeting -> must change nothing
             world, sn = self.world, self.sn
@@ -261,6 +263,48 @@ class Setup:
         else:
             data = objgen.rb(rng, rng.choice([1, 3, 4, 8, 9, 60, 500]))
         return name, kind, data, greeted
+
+    def peer_book_story(self, host):
+        """out-of-order and oversized peer-book traffic on ONE connection: a second greeting naming another listening port, and
+        announcements of hundreds of addresses -- nonsense ones, the node's own, the honest peers', and (anywhere in the list,
+        also repeated) addresses that really accept connections, among them the sender's own (host, port of the second
+        greeting).  Returns (bytes, listeners)"""
+        rng, sn = self.rng, self.sn
+        ms, wire = sn.wire.ms, sn.wire
+        from ipaddress import IPv6Address
+
+        def peer(h, p):
+            return ms.Peer(0, IPv6Address("::FFFF:" + h), p)
+        px = rng.choice([2412, 2413, 5000 + rng.randrange(1000)])
+        reach = [(host, px)] + [("10.66.%d.%d" % (rng.randrange(7, 9), rng.randrange(1, 250)), rng.choice([2412, 7000 + rng.randrange(99)]))
+                                for _ in range(rng.choice([0, 1, 3]))]
+        listeners = [sn.net.raw_listen(a) for a in reach if a not in sn.net.by_addr]
+        n = rng.choice([3, 99, 100, 101, 130, 250, 400, 999, 1000])
+        peers = []
+        for _ in range(n):
+            r = rng.random()
+            if r < 0.9:
+                peers.append(peer("%d.%d.%d.%d" % (rng.randrange(1, 223), rng.randrange(256), rng.randrange(256), rng.randrange(1, 255)),
+                                  rng.choice([2412, 2412, rng.randrange(1, 65536)])))
+            elif r < 0.95:
+                peers.append(ms.Peer(0, self.g.ip(rng), 2412))
+            else:
+                peers.append(peer(sn.node.addr[0], sn.node.addr[1]))
+        for a in reach:
+            for _ in range(rng.choice([1, 1, 2])):
+                peers.insert(rng.choice([0, min(len(peers), 100), min(len(peers), 101), len(peers), rng.randrange(len(peers) + 1)]), peer(*a))
+        for h in self.honest:
+            if rng.random() < 0.5:
+                peers.insert(rng.randrange(len(peers) + 1), peer(h.peer.remote_addr[0], rng.choice([2412, h.peer.remote_addr[1]])))
+        peers = peers[:1000]
+        second_hello = wire.hello(nonce=rng.randrange(1 << 32), my_port=px)
+        announce = wire.frame(ms.PeersMessage(peers), in_response_to=rng.choice([0, 0, 5]))
+        order = rng.choice(["announce-then-greeting", "greeting-then-announce", "announce-greeting-announce", "announce-only"])
+        data = {"announce-then-greeting": announce + second_hello, "greeting-then-announce": second_hello + announce,
+                "announce-greeting-announce": announce + second_hello + announce, "announce-only": announce}[order]
+        self.mon.c["peer_book_stories"] = self.mon.c.get("peer_book_stories", 0) + 1
+        self.mon.c["peer_book_addresses_announced"] = self.mon.c.get("peer_book_addresses_announced", 0) + len(peers)
+        return data, listeners
 
     def fingerprint(self):
         sn = self.sn
@@ -379,13 +423,19 @@ class Setup:
                 hostile_greeted = greeted
             if not greeted:
                 c["streams_before_greeting"] += 1
+            listeners = []
+            if kind == "peer-book-story":
+                data, listeners = self.peer_book_story(hostile.peer.remote_addr[0])
             before = self.fingerprint()
+            story = {"hostile_address": list(hostile.peer.remote_addr), "listening": [list(li.addr) for li in listeners]} if listeners else None
             c["streams"] += 1
             c["by_kind"][kind] = c["by_kind"].get(kind, 0) + 1
             c["bytes_sent"] += len(data)
             mon.digests.add(digest(data, greeted))
             w = {"chain": gen.blocks_hex(self.world, self.world.chain.order[1:]), "stream": data.hex(), "greeted": greeted,
                  "kind": kind, "base_frame": name, "pool": [t.enc().hex() for t in self.pooled]}
+            if story:
+                w["peer_book_story"] = story
             frag = rng.random() < 0.5
             c["fragmented_streams"] += frag
             conn_bytes += data
@@ -408,6 +458,28 @@ class Setup:
                 sn.settle(fragment=frag)
                 sn.net.do_step(sn.node)
                 sn.settle()
+                if kind == "peer-book-story":
+                    # the node works through its peer book: several manager steps, its connection attempts answered (refused
+                    # by the nonsense addresses, accepted by the listening ones, which may greet back, stay silent or hang up)
+                    for _round in range(4):
+                        sn.net.do_step(sn.node)
+                        sn.settle()
+                        for li in listeners:
+                            for conn in li.conns:
+                                if not conn.closed and not getattr(conn, "answered", False) and rng.random() < 0.6:
+                                    conn.answered = True
+                                    conn.take_received()
+                                    conn.push(sn.wire.hello(nonce=rng.randrange(1 << 32)))
+                                    c["peer_book_connections_made_by_the_node"] = c.get("peer_book_connections_made_by_the_node", 0) + 1
+                        sn.settle()
+                    for li in listeners:
+                        for conn in li.conns:
+                            if not conn.closed and rng.random() < 0.7:
+                                conn.close()
+                        sn.net.by_addr.pop(li.addr, None)
+                    sn.settle()
+                    sn.net.do_step(sn.node)
+                    sn.settle()
             except Hang:
                 c["hangs"] += 1
                 if sn.cm.lock.locked() or sn.store.lock.locked():
@@ -722,9 +794,11 @@ def replay(mon, w):
         t = ref.dec_tx(bytes.fromhex(hx), strict=False)[0]
         if sn.cm.add_transaction_to_pool(bridge.rtx_to_real(t)):
             st.pooled.append(t)
-    hostile = sn.net.raw_connect(sn.node, src=("10.66.6.6", 46000))
+    story = w.get("peer_book_story")
+    hostile = sn.net.raw_connect(sn.node, src=tuple(story["hostile_address"]) if story else ("10.66.6.6", 46000))
     if w.get("greeted", True):
         simnet.greet(sn.net, sn.node, hostile, sn.wire, nonce=6660)
+    listeners = [sn.net.raw_listen(tuple(a)) for a in story["listening"]] if story else []
     before = st.fingerprint()
     stream_hex = w.get("stream_with_earlier_bytes_on_this_connection") or w["stream"]
     w = dict(w, stream=stream_hex)
@@ -732,6 +806,22 @@ def replay(mon, w):
     sn.settle()
     sn.net.do_step(sn.node)
     sn.settle()
+    if story:
+        for answer in (False, True, True, False):
+            sn.net.do_step(sn.node)
+            sn.settle()
+            for li in listeners:
+                for conn in li.conns:
+                    if answer and not conn.closed and not getattr(conn, "answered", False):
+                        conn.answered = True
+                        conn.push(sn.wire.hello(nonce=rng.randrange(1 << 32)))
+            sn.settle()
+        for li in listeners:
+            for conn in li.conns:
+                conn.close()
+        sn.settle()
+        sn.net.do_step(sn.node)
+        sn.settle()
     esc = sn.escaped()
     if esc:
         mon.v("exception-escaped-event-loop:" + esc[0].split(":")[0], esc[0][:300], w)
@@ -773,7 +863,9 @@ def finalize(m, tier):
               ("sends_failed_on_a_closed_connection", c.get("sends_failed_on_a_closed_connection", 0), 100),
               ("reads_failed_on_a_reset_connection", c.get("reads_failed_on_a_reset_connection", 0), 100),
               ("noninterference_baseline_downloads_complete", c.get("noninterference_baseline_downloads_complete", 0), 100),
-              ("hostile_gone_in_noninterference", c.get("hostile_gone_in_noninterference", 0), 150)]
+              ("hostile_gone_in_noninterference", c.get("hostile_gone_in_noninterference", 0), 150),
+              ("peer_book_stories", c.get("peer_book_stories", 0), 200),
+              ("peer_book_connections_made_by_the_node", c.get("peer_book_connections_made_by_the_node", 0), 200)]
     for k in ("bit-flip", "truncate", "splice", "reorder", "undecodable-payload", "unknown-type", "bad-magic", "over-limit-length",
               "random-bytes", "huge-list-length"):
         floors.append(("kind " + k, c.get("by_kind", {}).get(k, 0), 200))
